@@ -5,6 +5,12 @@ ID = 'C06'
 #                            so reaching it would be reported as "unmodelled external"
 CUTS = [r'^_ZN5phosg13string_printfB5cxx11EPKcz$', r'^_ZN5phosg8io_errorC[12]Ei$']
 UNITS = {'img': dict(wrap='wrap.cc', shim=True, new_block=128, cxxflags=['-U_FORTIFY_SOURCE', '-D_FORTIFY_SOURCE=0'], cuts=CUTS, gen_defs=['VERIF_EXC_POOL=4'])}
+# P7 (PAM) input: the header parser (phosg::fgets + std::string per line) only becomes tractable when every heap read folds:
+# deterministic zero-initialised operator-new pool (static blocks), pointer differences folded by the translator, field
+# sensitivity up to the block size.  new_block 320 >= the 257-byte line block of phosg::fgets.
+UNITS['gray'] = dict(wrap='wrap_gray.cc', shim=True, new_block=128, cxxflags=['-U_FORTIFY_SOURCE', '-D_FORTIFY_SOURCE=0'], cuts=CUTS, gen_defs=['VERIF_EXC_POOL=4'])
+UNITS['p7'] = dict(wrap='wrap.cc', shim=True, new_block=320, cxxflags=['-U_FORTIFY_SOURCE', '-D_FORTIFY_SOURCE=0'], cuts=CUTS,
+                   gen_defs=['VERIF_EXC_POOL=4', 'VERIF_NEW_POOL=12'], ir2c_flags=['--ptrdiff', '--flat-unions'])
 BOUNDS = ('Images 1..4 x 1..3 (all residues of width mod 4), alpha on/off, all pixel/sample bytes symbolic, ONE symbolic checked pixel/byte per query. '
           'BMP: save->decode->load, every prefix length symbolic; input variants 24/32-bit BI_RGB, BI_BITFIELDS with all 24 byte-mask permutations, top-down/bottom-up, '
           'info header 40/108/124 bytes, pixel-data gap 0/2. BMP header arithmetic: width symbolic in [1,32768], height cells. '
@@ -23,6 +29,7 @@ OUTSIDE = ['P7 (PAM) *input*: the text header goes through phosg::fgets + std::s
            'malformed (not merely truncated) headers, e.g. BMP info-header size < 4 (observation in NOTES.md)']
 ASSUMPTIONS = ['x86-64 little-endian host', 'heap allocation never fails']
 FLAGS = ['--memory-leak-check', '--max-field-sensitivity-array-size', '256']
+P7FLAGS = ['--memory-leak-check', '--max-field-sensitivity-array-size', '512']
 # the shim unordered_map(initializer_list) constructor of the 4-entry mask table: nested slot-search loops, 4 x 4 iterations
 UM = ','.join('_ZNSt13unordered_mapIjmvvvEC2ESt16initializer_listISt4pairIKjmEE.%d:20' % i for i in range(4))
 
@@ -80,6 +87,44 @@ def queries(tier):
                     desc='Image(FILE*, %d, %d, alpha=%d) raw constructor: io_error iff short file, pixel buffer released on the exception path' % (W, H, A),
                     bounds='image %dx%d, every file length 0..size' % (W, H))
 
+    def p7(TT, W, H, CW, tlen=None, order=0, rt=False, maxval=None):
+        A = 1 if rt else TT & 1
+        n = W * H * (3 + A) * CW // 8 + 2
+        defs = {'TT': TT, 'W': W, 'H': H, 'CW': CW, 'FCAP': 128 + n}
+        if tlen is not None:
+            defs['TLEN'] = tlen
+        if order:
+            defs['ORDER'] = order
+        if rt:
+            defs['MODE_RT'] = 1
+        if maxval is not None:
+            defs['MAXVAL'] = '%dULL' % maxval
+        tn = ('RGB', 'RGB_ALPHA', 'GRAYSCALE', 'GRAYSCALE_ALPHA')[TT]
+        name = 'p7_%s_%dx%d_cw%d%s%s%s' % ('roundtrip' if rt else tn.lower(), W, H, CW, '_o%d' % order if order else '', '' if maxval is None else '_max%d' % maxval, '' if tlen is None else '_cut%d' % tlen)
+        # global unwind 10: the 8-slot deque shim constructor/destructor loops and the <= 4-pixel expansion loops; text loops are listed:
+        # a header line is at most "TUPLTYPE GRAYSCALE_ALPHA\n" = 25 bytes (fgets stub, strlen, substr memcpy, memcmp of the 15-byte type),
+        # MAXVAL has at most 20 digits (strtoull), the 257-byte line block of phosg::fgets is zero-filled by std::string(256, 0)
+        ul = {'in_bytes.0': n, 'w_set_data.0': n, 'harness.0': n, 'X_fread.0': n, 'put_str.0': 40, 'put_dec.0': 22, 'put_dec.1': 22, 'verif_memset_loop.0': 260, 'X_fgets.0': 30, 'strlen.0': 30,
+              'verif_memcpy_loop.0': 30, 'memcmp.0': 30, 'X_strtoull.0': 4, 'X_strtoull.1': 23}
+        if rt:  # save side: header text through the snprintf model (format string of 71 bytes), one fwrite of the header and one of the samples
+            ul.update({'X_fwrite.0': max(n, 100), 'snprintf_core.0': 24, 'snprintf_core.1': 24, 'snprintf_core.2': 72, 'verif_memcpy_loop.0': max(n, 100), 'strlen.0': 100})
+        us = ','.join('%s:%d' % kv for kv in ul.items())
+        if rt:
+            desc = 'P7 save -> load identity: save(COLOR_PPM) of a %dx%d image with alpha, %d-bit samples, then load of the written bytes: same geometry, alpha flag, channel width, checked sample; every prefix that ends inside the samples (symbolic): io_error or identical' % (W, H, CW)
+        else:
+            desc = ('P7 (PAM) input TUPLTYPE %s, %dx%d, MAXVAL %s (%d-bit samples)%s: geometry, alpha flag, channel width and the checked sample are what the format defines; %s' %
+                    (tn, W, H, maxval if maxval is not None else '2^%d-1' % CW, CW, ', header lines in reverse order' if order else '',
+                     'every prefix that ends inside the samples (symbolic): io_error or identical; no out-of-bounds access, no leak' if tlen is None else 'prefix of %d bytes: rejected iff it ends inside the header' % tlen))
+        return dict(name=name, unit='p7', harness='h_p7.c', defs=defs, unwind=10, unwindset=us, timeout=900, mem_gb=3, object_bits=12, flags=P7FLAGS, desc=desc,
+                    bounds='image %dx%d, all sample bytes, header text concrete' % (W, H))
+
+    def gray(CW, A):
+        n = 4 * (3 + A) * CW // 8 + 2
+        return dict(name='gray_expand_cw%d_a%d' % (CW, A), unit='gray', harness='h_gray.c', defs={'CW': CW, 'ALPHA': A}, unwind=6, unwindset='one.0:%d,one.1:%d,one.2:%d' % (n, n, n), timeout=600, mem_gb=2,
+                    object_bits=12, flags=FLAGS,
+                    desc='expand_gray_samples_in_place<uint%d_t>, has_alpha=%d, 1..4 pixels in an exact-size buffer: every pixel is (g,g,g%s) of the original samples, no access outside the buffer' % (CW, A, ',a' if A else ''),
+                    bounds='pixel count 1..4, all sample values')
+
     for A in (0, 1):
         for HT in ([1, 3, 64] if not T else [1, 2, 3, 4, 5, 7, 8, 63, 64, 1000, 32768]):
             qs.append(dict(name='bmp_header_a%d_h%d' % (A, HT), unit='img', harness='h_bmp_hdr.c', defs={'ALPHA': A, 'HT': HT}, unwind=4, unwindset='verif_memcpy_loop.0:142', timeout=600, mem_gb=6,
@@ -90,6 +135,9 @@ def queries(tier):
         qs += [bmpvar(2, 2, 24, 0, 0, 40), bmpvar(3, 2, 24, 0, 1, 40), bmpvar(2, 2, 32, 0, 0, 40), bmpvar(2, 2, 32, 3, 0, 124, 2), bmpvar(1, 2, 32, 3, 1, 108)]
         qs += [ppm(0, 2, 2, 0, 8), ppm(0, 1, 1, 1, 8), ppm(2, 2, 2, 0, 8), ppm(2, 2, 2, 0, 8, 5), ppm(2, 1, 2, 0, 16), ppm(2, 2, 1, 0, 64), ppm(2, 2, 1, 0, 64, 27), ppm(1, 2, 2, 0, 8), ppm(1, 1, 2, 0, 16)]
         qs += [png(2, 2, 0), png(1, 2, 1), raw(2, 2, 0)]
+        qs += [gray(8, 1), gray(16, 1), gray(64, 1), gray(8, 0), gray(32, 0)]
+        qs += [p7(3, 2, 1, 8), p7(3, 1, 2, 16), p7(3, 2, 2, 8), p7(2, 2, 2, 8), p7(2, 2, 1, 16), p7(1, 2, 1, 8), p7(1, 1, 2, 16), p7(0, 2, 2, 8), p7(0, 1, 1, 16),
+               p7(3, 2, 1, 8, order=1), p7(3, 2, 1, 8, tlen=40), p7(1, 2, 1, 8, tlen=2), p7(2, 1, 1, 16, maxval=256), p7(1, 2, 1, 8, rt=True), p7(1, 1, 1, 16, rt=True)]
     else:
         for W in (1, 2, 3, 4):
             for H in (1, 2, 3):
@@ -120,6 +168,21 @@ def queries(tier):
                 for A in (0, 1):
                     qs.append(png(W, H, A))
         qs += [raw(1, 1, 0), raw(2, 2, 0), raw(2, 2, 1), raw(3, 1, 0)]
+        for CW in (8, 16, 32, 64):
+            qs += [gray(CW, 0), gray(CW, 1)]
+        for TT in (0, 1, 2, 3):
+            for (W, H) in ((1, 1), (2, 1), (1, 2), (2, 2)):
+                for CW in (8, 16) + ((32, 64) if W == 2 else ()):
+                    qs.append(p7(TT, W, H, CW))
+            qs.append(p7(TT, 2, 1, 8, order=1))
+        # "P7\nWIDTH 2\nHEIGHT 1\nDEPTH 2\nMAXVAL 255\nTUPLTYPE GRAYSCALE_ALPHA\nENDHDR\n" is 68 bytes, then 4 sample bytes
+        for cut in range(0, 70, 3):
+            qs.append(p7(3, 2, 1, 8, tlen=cut))
+        for cut in (0, 2, 3, 11, 12, 31, 43, 60, 61):   # "... RGB\nENDHDR\n" is 62 bytes
+            qs.append(p7(0, 1, 1, 16, tlen=cut))
+        qs += [p7(2, 2, 1, 8, maxval=1), p7(3, 2, 1, 16, maxval=256), p7(0, 2, 1, 32, maxval=65536), p7(1, 1, 1, 32, maxval=4294967295), p7(3, 1, 2, 64, maxval=4294967296)]
+        for (W, H, CW) in ((1, 1, 8), (2, 1, 8), (1, 2, 16), (2, 2, 8), (1, 1, 32), (2, 1, 64)):
+            qs.append(p7(1, W, H, CW, rt=True))
     if T:
         for q in qs:
             q.setdefault('tv_runs', 20)  # translation validation: 60 random runs per query in quick, 20 in thorough (many more queries)
